@@ -69,6 +69,29 @@ theorem scalar_scalar (op : Op) (how : How) (m : Option Dir) (p q : Option Rat) 
     binop op how m (.num p) (.num q) = .num (op.appO p q) := by
   cases how <;> simp [binop, alignAll, indexesOf, joinIndex, kernel]
 
+/-- ... also with a fill method: the scalar broadcasts over the Series' own index, where the Series shows its
+forward / backward filled value (`add_(a, 1, method='ffill')` fills `a`'s NaN before adding) -/
+theorem scalar_right_fill (op : Op) (how : How) (m : Option Dir) (a : RSeries) (q : Option Rat) :
+    binop op how m (.ts a) (.num q) =
+      .ts { idx := a.idx, vals := a.idx.map fun t => op.appO (lookR a m t) q } := by
+  cases how <;> simp [binop, alignAll, indexesOf, joinIndex, kernel, reindexR_eq, List.map_map, Function.comp_def]
+
+theorem scalar_left_fill (op : Op) (how : How) (m : Option Dir) (b : RSeries) (q : Option Rat) :
+    binop op how m (.num q) (.ts b) =
+      .ts { idx := b.idx, vals := b.idx.map fun t => op.appO q (lookR b m t) } := by
+  cases how <;> simp [binop, alignAll, indexesOf, joinIndex, kernel, reindexR_eq, List.map_map, Function.comp_def]
+
+/-- `add_` and `mul_` commute between a Series and a scalar, for every index policy (also `lj` / `rj`) and fill method -/
+theorem add_comm_scalar (how : How) (m : Option Dir) (a : RSeries) (q : Option Rat) :
+    binop .add how m (.ts a) (.num q) = binop .add how m (.num q) (.ts a) := by
+  rw [scalar_right_fill, scalar_left_fill]
+  congr 3; funext t; exact appO_comm_add _ _
+
+theorem mul_comm_scalar (how : How) (m : Option Dir) (a : RSeries) (q : Option Rat) :
+    binop .mul how m (.ts a) (.num q) = binop .mul how m (.num q) (.ts a) := by
+  rw [scalar_right_fill, scalar_left_fill]
+  congr 3; funext t; exact appO_comm_mul _ _
+
 /-- dividing a Series by the scalar 0 gives NaN at every timestamp of the Series (F10: the unrepaired code
 returned the scalar nan) -/
 theorem div_by_zero_scalar (how : How) (a : RSeries) :
@@ -145,6 +168,20 @@ theorem reduce_div (how : How) (m : Option Dir) (x y : Operand) (xs ys : List Op
     opList .div how m (x :: xs) (y :: ys) =
       some (binop .div how m (xs.foldl (binop .mul how m) x) (ys.foldl (binop .mul how m) y)) := rfl
 
+/-- **left to right, by value** (not through the model's own fold): three Series, any index policy, no fill
+method - `add_([a, b, c])` lives on the joint index of `a ∩ b` and `c` and holds `(a[t] op b[t]) op c[t]` there.
+`reduce_left` is the definitional unfolding; this one reads the result. -/
+theorem reduce_value (op : Op) (hop : op = .add ∨ op = .mul) (how : How) (a b c : RSeries) :
+    ∃ ix jx, joinIndex how [a.idx, b.idx] = some ix ∧ joinIndex how [ix, c.idx] = some jx ∧
+      opList op how Option.none [.ts a, .ts b, .ts c] [] =
+        some (.ts (RSeries.mk jx (jx.map fun t =>
+          op.appO (valueAtR (RSeries.mk ix (ix.map fun t => op.appO (valueAtR a t) (valueAtR b t))) t) (valueAtR c t)))) := by
+  obtain ⟨ix, h1, e1⟩ := binop_value op how a b
+  obtain ⟨jx, h2, e2⟩ := binop_value op how (RSeries.mk ix (ix.map fun t => op.appO (valueAtR a t) (valueAtR b t))) c
+  refine ⟨ix, jx, h1, h2, ?_⟩
+  rw [reduce_left op hop]
+  simp only [List.append_nil, List.foldl_cons, List.foldl_nil, e1, e2]
+
 /-! ### NaN-skipping aggregates -/
 
 /-- the aggregates live on the joint index (the union under the default `oj`) -/
@@ -152,6 +189,69 @@ theorem agg_index (g : Agg) (how : How) (m : Option Dir) (xs : List Operand) (ix
     (h : joinIndex how (indexesOf xs) = some ix) :
     ∃ s, aggregate g how m xs = some s ∧ s.idx = ix ∧ s.vals.length = ix.length := by
   simp [aggregate, h]
+
+/-- what an operand shows at label `t` after alignment: a Series its (reindexed) value, a scalar itself -/
+def lookO (m : Option Dir) (t : Int) : Operand → Option Rat
+  | .ts s => lookR s m t
+  | .num q => q
+
+/-- **value**: the aggregate of Series and scalars is the Series on the joint index of the Series whose value at `t` is
+the NaN-skipping aggregate `Agg.at` (see `count_spec`, `sum_skipna`, `mean_spec`) of what every operand shows at `t` -
+a Series its value after `_df_reindex(·, m)` (`lookR`; NaN where it has no row), a scalar itself at every `t` -/
+theorem agg_value (g : Agg) (how : How) (m : Option Dir) (xs : List Operand) (ix : List Int)
+    (h : joinIndex how (indexesOf xs) = some ix) :
+    aggregate g how m xs = some { idx := ix, vals := ix.map fun t => g.at (xs.map (lookO m t)) } := by
+  simp only [aggregate, h]
+  congr 2
+  apply List.ext_getElem
+  · simp
+  · intro k h1 h2
+    have hk : k < ix.length := by simpa using h1
+    simp only [List.getElem_map, List.getElem_range, List.map_map]
+    congr 1
+    apply List.map_congr_left
+    intro x _
+    cases x with
+    | num q => rfl
+    | ts s =>
+      simp only [Function.comp_def, Operand.at, lookO, reindexR_eq, List.getElem?_map, List.getElem?_eq_getElem hk,
+        Option.map_some, Option.join_some]
+
+/-- reading the aggregate by label -/
+theorem agg_at (g : Agg) (how : How) (m : Option Dir) (xs : List Operand) (s : RSeries)
+    (h : aggregate g how m xs = some s) (t : Int) (ht : t ∈ s.idx) :
+    valueAtR s t = g.at (xs.map (lookO m t)) := by
+  cases hj : joinIndex how (indexesOf xs) with
+  | none => simp [aggregate, hj] at h
+  | some ix =>
+    rw [agg_value g how m xs ix hj] at h
+    cases h
+    obtain ⟨i, hi⟩ := posOf_of_mem ix t ht
+    have h2 := (posOf_some ix t i hi).1
+    simp only [valueAtR, hi, Option.bind_some, List.getElem?_map, h2, Option.map_some, Option.join_some]
+
+/-- a scalar operand counts at every timestamp: `df_sum([a, q]) = a[t] + q` where `a` has data, `q` where it has not
+(the unextended model dropped scalar operands: reviewer's finding r4 C08 2.1) -/
+theorem agg_scalar_sum (how : How) (a : RSeries) (q : Rat) :
+    aggregate .sum how Option.none [.ts a, .num (some q)] =
+      some { idx := a.idx, vals := a.idx.map fun t => some ((valueAtR a t).getD 0 + q) } := by
+  have hj : joinIndex how (indexesOf [.ts a, .num (some q)]) = some a.idx := by cases how <;> rfl
+  rw [agg_value _ _ _ _ _ hj]
+  congr 2
+  apply List.map_congr_left
+  intro t _
+  simp only [List.map_cons, List.map_nil, lookO, lookR]
+  cases valueAtR a t <;> simp [Agg.at, countAt, sumAt, List.filter, Rat.zero_add, Rat.add_zero]
+
+/-- without any Series the aggregate is the scalar aggregate of the scalars -/
+theorem agg_scalars_only (g : Agg) (how : How) (m : Option Dir) (qs : List (Option Rat)) :
+    aggregate g how m (qs.map .num) = Option.none ∧ aggregateNum g (qs.map .num) = g.at qs := by
+  have h1 : indexesOf (qs.map .num) = [] := by
+    induction qs with
+    | nil => rfl
+    | cons q qs ih => simp [indexesOf] at ih ⊢
+  refine ⟨by simp [aggregate, h1, joinIndex], ?_⟩
+  simp [aggregateNum, List.map_map, Function.comp_def]
 
 /-- count = number of operands holding a non-NaN value there -/
 theorem count_spec (vs : List (Option Rat)) : Agg.at .count vs = some (((vs.filterMap id).length : Nat) : Rat) := by
@@ -534,6 +634,55 @@ theorem mul_comm_frames (how : How) (hh : how = .inner ∨ how = .outer) (m : Op
     binopF .mul how m ch (.df a) (.df b) = binopF .mul how m ch (.df b) (.df a) :=
   binopF_comm_aux .mul appO_comm_mul how hh m ch a b ha hb sa sb
 
+/-- ... and between a frame and a Series (the Series is broadcast to every column on either side) -/
+theorem add_comm_frame_series (how : How) (hh : how = .inner ∨ how = .outer) (m : Option Dir) (ch : ColHow) (a : RFrame) (s : RSeries)
+    (ha : a.cols.length > 1) (sa : SortedL a.idx) (ss : SortedL s.idx) :
+    binopF .add how m ch (.df a) (.ts s) = binopF .add how m ch (.ts s) (.df a) := by
+  obtain ⟨ix, h1, e1⟩ := binopF_frame_series .add how m ch a s ha
+  obtain ⟨ix', h2, e2⟩ := binopF_series_frame .add how m ch a s ha
+  have : ix = ix' := by
+    rcases hh with rfl | rfl
+    · rw [joinIndex_comm_inner _ _ sa ss] at h1; rw [h1] at h2; exact Option.some.inj h2
+    · rw [joinIndex_comm_outer _ _ sa ss] at h1; rw [h1] at h2; exact Option.some.inj h2
+  subst this
+  rw [e1, e2]
+  congr 2
+  apply List.map_congr_left
+  intro c _
+  congr 2; funext t; exact appO_comm_add _ _
+
+theorem mul_comm_frame_series (how : How) (hh : how = .inner ∨ how = .outer) (m : Option Dir) (ch : ColHow) (a : RFrame) (s : RSeries)
+    (ha : a.cols.length > 1) (sa : SortedL a.idx) (ss : SortedL s.idx) :
+    binopF .mul how m ch (.df a) (.ts s) = binopF .mul how m ch (.ts s) (.df a) := by
+  obtain ⟨ix, h1, e1⟩ := binopF_frame_series .mul how m ch a s ha
+  obtain ⟨ix', h2, e2⟩ := binopF_series_frame .mul how m ch a s ha
+  have : ix = ix' := by
+    rcases hh with rfl | rfl
+    · rw [joinIndex_comm_inner _ _ sa ss] at h1; rw [h1] at h2; exact Option.some.inj h2
+    · rw [joinIndex_comm_outer _ _ sa ss] at h1; rw [h1] at h2; exact Option.some.inj h2
+  subst this
+  rw [e1, e2]
+  congr 2
+  apply List.map_congr_left
+  intro c _
+  congr 2; funext t; exact appO_comm_mul _ _
+
+theorem add_comm_frame_scalar (how : How) (m : Option Dir) (ch : ColHow) (a : RFrame) (q : Option Rat) (ha : a.cols.length > 1) :
+    binopF .add how m ch (.df a) (.num q) = binopF .add how m ch (.num q) (.df a) := by
+  rw [binopF_frame_scalar _ _ _ _ _ _ ha, binopF_scalar_frame _ _ _ _ _ _ ha]
+  congr 2
+  apply List.map_congr_left
+  intro c _
+  congr 2; funext t; exact appO_comm_add _ _
+
+theorem mul_comm_frame_scalar (how : How) (m : Option Dir) (ch : ColHow) (a : RFrame) (q : Option Rat) (ha : a.cols.length > 1) :
+    binopF .mul how m ch (.df a) (.num q) = binopF .mul how m ch (.num q) (.df a) := by
+  rw [binopF_frame_scalar _ _ _ _ _ _ ha, binopF_scalar_frame _ _ _ _ _ _ ha]
+  congr 2
+  apply List.map_congr_left
+  intro c _
+  congr 2; funext t; exact appO_comm_mul _ _
+
 /-! ### lists of frames reduce left to right -/
 
 theorem reduce_left_frames (op : Op) (hop : op = .add ∨ op = .mul) (how : How) (m : Option Dir) (ch : ColHow)
@@ -578,6 +727,54 @@ theorem aggF_value (g : Agg) (how : How) (m : Option Dir) (ch : ColHow) (f : RFr
     have hc' : c ∈ colsJoin ch f.names (fs.map (·.names)) := hc
     simp only [List.map_map, Function.comp_def, col_recol _ _ ix m c hc', Option.bind_some, List.getElem?_map,
       List.getElem?_eq_getElem hk, Option.map_some, Option.join_some]
+
+/-- what an operand of a frame aggregate shows in cell `(t, c)`: a frame its (reindexed) cell, NaN without the column;
+a scalar itself in every cell -/
+def cellX (m : Option Dir) (c : String) (t : Int) : FOperand → Option Rat
+  | .df f => cellD Option.none f m c t
+  | .num q => q
+  | .ts _ => Option.none
+
+/-- on frames alone the aggregate with scalars is the aggregate of frames -/
+theorem aggFS_refines (g : Agg) (how : How) (m : Option Dir) (ch : ColHow) (fs : List RFrame) :
+    aggregateFS g how m ch (fs.map .df) = aggregateF g how m ch fs := by
+  have h : framesOfX (fs.map FOperand.df) = fs := by
+    induction fs with
+    | nil => rfl
+    | cons f fs ih => simp only [framesOfX, List.map_cons, List.filterMap_cons] at ih ⊢; rw [ih]
+  simp only [aggregateFS, aggregateF, h, List.map_map, Function.comp_def]
+
+/-- **value with scalars**: frames (several columns each) and scalars in any order - the result lives on the joint index
+and the joint header of the FRAMES, and its cell `(t, c)` is `Agg.at` of what every operand shows there (`cellX`) -/
+theorem aggFS_value (g : Agg) (how : How) (m : Option Dir) (ch : ColHow) (xs : List FOperand) (f : RFrame) (fs : List RFrame)
+    (hf : framesOfX xs = f :: fs) :
+    ∃ ix, joinIndex how ((f :: fs).map (·.idx)) = some ix ∧
+      aggregateFS g how m ch xs =
+        some { idx := ix, cols := (aggCols ch f fs).map fun c => (c, ix.map fun t => g.at (xs.map (cellX m c t))) } := by
+  have hix : ∃ ix, joinIndex how ((f :: fs).map (·.idx)) = some ix := by cases how <;> exact ⟨_, rfl⟩
+  obtain ⟨ix, hix⟩ := hix
+  refine ⟨ix, hix, ?_⟩
+  have hix' : joinIndex how (f.idx :: fs.map (·.idx)) = some ix := hix
+  simp only [aggregateFS, hf, hix', List.map_cons]
+  congr 2
+  apply List.map_congr_left
+  intro c hc
+  congr 1
+  apply List.ext_getElem
+  · simp
+  · intro k h1 h2
+    simp only [List.getElem_map, List.getElem_range, List.map_map]
+    congr 1
+    have hk : k < ix.length := by simpa using h1
+    have hc' : c ∈ colsJoin ch f.names (fs.map (·.names)) := hc
+    apply List.map_congr_left
+    intro x _
+    cases x with
+    | num q => rfl
+    | ts s => rfl
+    | df x =>
+      simp only [Function.comp_def, cellX, col_recol _ _ ix m c hc', Option.bind_some, List.getElem?_map,
+        List.getElem?_eq_getElem hk, Option.map_some, Option.join_some]
 
 /-- the joint header: the union of the headers under `'oj'` (the default), the common columns under `'ij'`; sorted -/
 theorem aggF_columns_oj (f : RFrame) (fs : List RFrame) (c : String) :
